@@ -1,7 +1,16 @@
 import BddVerif.Props.C17
+import BddVerif.Lemmas.AlgoEq2RenDriver
 #print axioms B.Props.C17.set_num_vars_safe
 #print axioms B.Props.C17.rename_variables_safe
 #print axioms B.Props.C17.rename_variable_safe
 #print axioms B.Props.C17.transfer_some_iff
 #print axioms B.Props.C17.transfer_name_correspondence
 #print axioms B.Props.C17.kept_canonical_structure
+#print axioms B.AlgoEq2Ren.set_num_vars_rel
+#print axioms B.AlgoEq2Ren.rename_variables_rel
+#print axioms B.AlgoEq2Ren.rename_variable_rel
+#print axioms B.AlgoEq2Ren.Bdd_set_num_vars_safe
+#print axioms B.AlgoEq2Ren.Bdd_rename_variables_safe
+#print axioms B.AlgoEq2Ren.Bdd_rename_variable_safe
+#print axioms B.AlgoEq2Ren.transfer_from_rel
+#print axioms B.AlgoEq2Ren.transfer_from_some_iff
